@@ -266,7 +266,7 @@ package bbolt
 //@   ensures [unchanged] tx.meta.txid == old(tx.meta.txid) && tx.meta.pgid == old(tx.meta.pgid) && tx.meta.freelist == old(tx.meta.freelist) && tx.meta.root.root == old(tx.meta.root.root)
 //@   ensures [valid] metavalid(tx.meta)
 //@   ensures [map] old(mapok(tx)) ==> mapok(tx)
-//@   ensures [frame] tx.db == old(tx.db) && tx.meta == old(tx.meta) && tx.writable == old(tx.writable) && tx.managed == old(tx.managed) && tx.root.tx == old(tx.root.tx) && tx.db.rwlock.held == old(tx.db.rwlock.held) && tx.db.rwtx == old(tx.db.rwtx) && tx.db.freelist == old(tx.db.freelist) && tx.db.pageSize == old(tx.db.pageSize) && tx.db.NoSync == old(tx.db.NoSync)
+//@   ensures [frame] tx.db == old(tx.db) && tx.meta == old(tx.meta) && tx.writable == old(tx.writable) && tx.managed == old(tx.managed) && tx.root.tx == old(tx.root.tx) && tx.db.rwlock.held == old(tx.db.rwlock.held) && tx.db.rwtx == old(tx.db.rwtx) && tx.db.freelist == old(tx.db.freelist) && tx.db.pageSize == old(tx.db.pageSize) && tx.db.NoSync == old(tx.db.NoSync) && tx.db.batchMu.held == old(tx.db.batchMu.held)
 
 //@ func (*Tx).commitFreelist
 //@   returns (err)
